@@ -814,9 +814,9 @@ where
                     }
                     p.mon.ticks += 1;
                     advanced_ok = true;
-                    // the recommendation gate ran once at the end of this call (rollback mode: one
-                    // advance_frame_after_poll per call); its decision shows in the next drain of events
-                    if !nodrain && cfg.window > 0 {
+                    // the recommendation gate ran once at the end of this call (advance_frame() is one
+                    // advance_frame_after_poll in every mode); its decision shows in the next drain of events
+                    if !nodrain {
                         p.mon.gate_trace.push((s.current_frame(), s.frames_ahead(), None));
                     }
                     p.mon.game.execute::<C>(reqs, cfg.window);
